@@ -187,6 +187,9 @@ def run(res, tier, seed, search):
         for r in range(reps):
             api_init_graph(res, rng, metric, kind, wide=(r == 0))
             api_iters_case(res, rng, metric, kind)
+    # the normalising metric has its own glue in the constructor (the seeds must be measured on the data the descent runs on)
+    for r in range(2 if tier == "quick" else 6):
+        api_init_graph(res, rng, "dot", "dense32", wide=(r == 0))
     api_good_init(res, rng, "euclidean")
     if tier != "quick":
         api_good_init(res, rng, "manhattan")
